@@ -34,8 +34,9 @@ class Fn:
 
     def __init__(self, cname, tu, name, flt=None, select=None, kinds=('CXXMethodDecl', 'FunctionDecl', 'CXXConstructorDecl'),
                  self_struct=None, types=(), calls=(), members=(), hooks=(), stmt_hooks=(), aggregates=(),
-                 ret=None, lambda_index=None, extra_params=(), post=None, uf_float=True):
+                 ret=None, lambda_index=None, extra_params=(), post=None, uf_float=True, dtors=()):
         self.uf_float = uf_float
+        self.dtors = list(dtors)
         self.cname = cname
         self.tu = tu
         self.name = name
@@ -64,7 +65,7 @@ class Fn:
                 raise ExtractionError(f'{self.cname}: lambda without operator()')
             d = ops[0]
         P = cxx2c.Printer(self.cname, self.types, self.calls, self.members, self.hooks, self.self_struct,
-                          self.aggregates, self.stmt_hooks, self.uf_float)
+                          self.aggregates, self.stmt_hooks, self.uf_float, self.dtors)
         text = P.function(d, self.ret, self.extra_params)
         if self.post:
             text = self.post(text)
